@@ -345,6 +345,38 @@ def _wholesale(fi, call):
     return None
 
 
+def wholesale_sites(p, reach):
+    """Every set_tokens(<list not derived from the whole region>) in rule code reachable from a fix.
+    Yields (fi, call node, key); the key contains the function, the replacement and the conditions that dominate
+    the call - the guard is what makes such a site safe, so a changed guard is a new site that needs triage."""
+    out = []
+    for k in sorted(reach):
+        fi = p.functions[k]
+        if not fi.module.name.startswith("vsg.rules"):
+            continue
+        facts = None
+        for n in walk_function(fi.node):
+            if isinstance(n, ast.Call) and _callee_name(n) == "set_tokens" and n.args:
+                w = _wholesale(fi, n)
+                if w is None:
+                    continue
+                if facts is None:
+                    facts = Facts(fi.node)
+                canon = set()
+                for t, pol in facts.conds_at(n):
+                    t = t.strip()
+                    while t.startswith("not "):
+                        t = t[4:].strip()
+                        if t.startswith("(") and t.endswith(")"):
+                            t = t[1:-1].strip()
+                        pol = not pol
+                    canon.add("%s is %s" % (t, pol))
+                guards = sorted(canon)
+                key = "%s:set_tokens(%s) under [%s]" % (fi.key, w, "; ".join(guards))
+                out.append((fi, n, key, guards))
+    return out
+
+
 def run(ctx):
     p = ctx.program
     cg = ctx.callgraph()
@@ -441,10 +473,6 @@ def run(ctx):
                 cn = _callee_name(n)
                 if cn in dropC and not (isinstance(n.func, ast.Attribute) and isinstance(n.func.value, ast.Name) and n.func.value.id == "self"):
                     sites.append(("call", fi, n, "%s()" % cn))
-                if cn == "set_tokens" and n.args:
-                    w = _wholesale(fi, n)
-                    if w is not None:
-                        sites.append(("wholesale", fi, n, "set_tokens(%s)" % w))
             kind = None
             if isinstance(n, ast.Continue):
                 kind = "continue"
@@ -496,6 +524,33 @@ def run(ctx):
         else:
             msg = "%s %s (%s) and is reachable from the fix of %s: comments may be deleted only by the two documented comment-removing fixes" % (fi.key, what, label, "; ".join(fam_label(f) for f in bad[:3]))
         r.fail("C02.drop", kk, msg, fi.loc(n))
+    n_whole = 0
+    for fi, n, kk, guards in wholesale_sites(p, reach):
+        n_whole += 1
+        seen.add(kk)
+        if fi.key in DOCUMENTED_REMOVERS:
+            r.ok("C02.drop", kk, "documented comment remover: " + DOCUMENTED_REMOVERS[fi.key])
+            continue
+        fs = families_of(fi.key)
+        if not fs:
+            r.ok("C02.drop", kk, "not reachable from the fix of any live rule", sample=False, nontrivial=False)
+            continue
+        if any(g.endswith(" is False") and "comment" in g.lower() and ("lTokens" in g or "get_tokens" in g) for g in guards):
+            r.ok("C02.drop", kk, "the replacement runs only when the region holds no comment (`%s`)" % [g for g in guards if "comment" in g.lower()][0][:70])
+            continue
+        ent = r.tabled("C02.drop", kk)
+        if ent:
+            if ent.get("requires_family_guard"):
+                bad = [fam for fam in fs if not fam_consult(fam)]
+                if bad:
+                    r.fail("C02.drop", kk + ":family-guard", "%s replaces its whole region; that is safe only because region selection / analysis skips regions holding a comment, and the famil%s %s no longer look%s for one" % (fi.key, "y" if len(bad) == 1 else "ies", "; ".join(fam_label(f) for f in bad[:3]), "s" if len(bad) == 1 else ""), fi.loc(n))
+                    continue
+            r.ok("C02.drop", kk, "tabled: " + ent.get("reason", "")[:90], sample=False)
+            continue
+        r.fail("C02.drop", kk, "%s replaces its whole region by a list that is not derived from it, and this site (with these guards) has not been shown to be free of comments: a comment inside the region is deleted by a rule whose purpose is not comment removal" % fi.key, fi.loc(n))
+    r.extra["wholesale_replacement_sites"] = n_whole
+    if n_whole < 15:
+        raise AnalysisError("only %d wholesale replacement sites found" % n_whole)
     r.extra["comment_loss_sites"] = len(seen)
     # what this clause does not decide: index-computed deletions and rebuilt lists (listed, never alarmed)
     n_unk = 0
